@@ -113,6 +113,22 @@ CLAIMED = {
         'technique': 'Lean 4 proof (induction over well-nested histories / interleavings) + differential correspondence in real threads',
         'design_ref': '§5 C19',
     },
+    'C12': {
+        'text': ('Lean theorems valid for every position list (hence for whatever an index expression selects): scatter-add '
+                 'is the exact adjoint of gather; gather∘scatter-add is the identity when no position is repeated (and a '
+                 'kernel-checked witness that it is not otherwise); scatter-add∘gather is the diagonal of multiplicities; the '
+                 'diagonal computed by TransposeIndexRule (normalise, unique(size=n, fill=-1), scatter-add) equals the '
+                 'multiplicities for every in-bounds integer array with negative and repeated entries (and a kernel-checked '
+                 'counterexample for the pre-repair code); the unique_indices flag logic and the constructor guards.  The '
+                 'model of NumPy indexing (ints, slices incl. negative steps, ellipsis, integer arrays of any rank, boolean '
+                 'masks, adjacency rule) is compared element-position by element-position with the implementation, with NumPy '
+                 'as the oracle, including construction with and without output structure, transposes and both rules.'),
+        'note': ('Trusted: Lean kernel + standard axioms; A1 (JAX indexing = NumPy for in-bounds indices), A2 (linear_transpose '
+                 'of a gather is the scatter-add; compared with the model on every case).  The position map of NumPy indexing '
+                 'is validated differentially, not proved injective for basic indices.'),
+        'technique': 'Lean 4 proof (list sums, induction) + differential correspondence of the NumPy indexing model',
+        'design_ref': '§5 C12',
+    },
 }
 
 ALL = [f'C{i:02d}' for i in range(1, 21)]
